@@ -43,7 +43,9 @@ func c08Oracle(c c08Case) error {
 	x := s.Bytes()
 	in := c.D.reader(x)
 	var prefix bytes.Buffer
-	snap, suffix, err := stack.ScanSnapshot(in, &prefix, plainOpts())
+	opts, loose := variantOpts(x)
+	defer looseFor(loose)()
+	snap, suffix, err := stack.ScanSnapshot(in, &prefix, opts)
 	rest, _ := io.ReadAll(in)
 	if snap == nil {
 		return fmt.Errorf("no snapshot (err=%v)", err)
